@@ -404,7 +404,14 @@ def run(chk, prog, tier):
                     s = True
                     self.nwrite += 1
             for m_ in walk(e0):
-                if m_.get("kind") == "CompoundAssignOperator" and m_.get("opcode") == "+=" and ref_name(kids(m_)[1]) == self.var:
+                added = m_.get("kind") == "CompoundAssignOperator" and m_.get("opcode") == "+=" and ref_name(kids(m_)[1]) == self.var
+                if m_.get("kind") == "BinaryOperator" and m_.get("opcode") == "=":
+                    r_ = strip(kids(m_)[1], casts=True)
+                    if r_.get("kind") == "BinaryOperator" and r_.get("opcode") == "+" and \
+                            any(ref_name(strip(x, casts=True)) == self.var for x in kids(r_)) and \
+                            any(expr_str(strip(x, casts=True)) == expr_str(strip(kids(m_)[0], casts=True)) for x in kids(r_)):
+                        added = True
+                if added:
                     self.nsum += 1
                     if not s:
                         self.viol.append(m_)
@@ -459,6 +466,119 @@ def run(chk, prog, tier):
                     chk.require(not dom.viol, "COUNTSUM", "COUNTSUM/%s" % v, loc_str(dom.viol[0]) if dom.viol else loc_str(lp),
                                 "inside the input loop the per-line count %s is added to the total only on paths that made the counting call for that line" % v,
                                 "a path reaches the addition without the call (a stale count of an earlier line would be added again)")
+                else:
+                    # the library reports the breaks of *this* call; the loop makes one call per line, so the total is their sum
+                    chk.bad("COUNTSUM", "COUNTSUM/%s/added" % v, loc_str(lp),
+                            "inside the input loop the per-line count %s is added to a total (`total += %s`)" % (v, v),
+                            "the count is written by the counting call of every line but never added up")
+    # ---- COUNTINIT: a total that per-call counts are added to starts from zero on every path that adds -------------------
+    class _Init:
+        """state of the total: 'zero' (assigned 0, or handed to a counting call that stores into it) or 'raw' (anything else)"""
+        def __init__(self, total, counts, fixed):
+            self.total, self.counts, self.fixed, self.viol, self.nadd, self.nwrite = total, counts, fixed, [], 0, 0
+        def copy(self, s): return s
+        def join(self, a, b): return "zero" if a == b == "zero" else "raw"
+        def equal(self, a, b): return a == b
+        def widen(self, o, n): return n
+        def decl(self, vd, s):
+            for c in kids(vd):
+                s = self.eval(c, s)
+            if vd.get("name") == self.total:
+                v_ = ConstEval(prog).try_eval(self._arm(kids(vd)[-1])) if kids(vd) else None
+                return "zero" if v_ == 0 else "raw"
+            return s
+        def _arm(self, e):
+            """the arm of `c ? a : b` this world takes when c is one of its fixed conditions"""
+            e0 = strip(e, casts=True)
+            while e0.get("kind") == "ConditionalOperator":
+                c_, t_ = strip(kids(e0)[0]), True
+                while c_.get("kind") == "UnaryOperator" and c_.get("opcode") == "!":
+                    c_, t_ = strip(kids(c_)[0]), not t_
+                if expr_str(c_) not in self.fixed:
+                    break
+                e0 = strip(kids(e0)[1] if self.fixed[expr_str(c_)] == t_ else kids(e0)[2], casts=True)
+            return e0
+        def eval(self, e, s):
+            e0 = strip(e)
+            if not e0:
+                return s
+            if e0.get("kind") == "ConditionalOperator" and expr_str(strip(kids(e0)[0])) in self.fixed:
+                return self.eval(kids(e0)[1] if self.fixed[expr_str(strip(kids(e0)[0]))] else kids(e0)[2], s)
+            if e0.get("kind") not in ("CallExpr", "CompoundAssignOperator") and not (e0.get("kind") == "BinaryOperator" and e0.get("opcode") == "="):
+                for c_ in kids(e0):
+                    s = self.eval(c_, s)
+                return s
+            for c_ in kids(e0):
+                s = self.eval(c_, s)
+            if e0.get("kind") == "CallExpr":
+                for a in call_args(e0):
+                    a0 = strip(a, casts=True)
+                    if a0.get("kind") == "UnaryOperator" and a0.get("opcode") == "&":
+                        nm_ = ref_name(strip(kids(a0)[0], casts=True))
+                        if nm_ == self.total and "counting" in (callee_name(e0) or ""):
+                            s = "zero"
+                        if nm_ in self.counts and "counting" in (callee_name(e0) or ""):
+                            self.nwrite += 1
+            elif e0.get("kind") == "BinaryOperator" and ref_name(strip(kids(e0)[0], casts=True)) == self.total:
+                s = "zero" if ConstEval(prog).try_eval(self._arm(kids(e0)[1])) == 0 else "raw"
+            elif e0.get("kind") == "CompoundAssignOperator" and e0.get("opcode") == "+=" and ref_name(strip(kids(e0)[0], casts=True)) == self.total and \
+                    ref_name(strip(kids(e0)[1], casts=True)) in self.counts:
+                self.nadd += 1
+                if s != "zero":
+                    self.viol.append(e0)
+                s = "zero"          # from here on the total is a sum of counts
+            return s
+        def assume(self, e, t, s):
+            k_ = expr_str(strip(e))
+            if k_ in self.fixed and self.fixed[k_] != t:
+                return None
+            return s
+        def ret(self, n, s): pass
+    for fn in sorted(reach):
+        f = tf[fn]
+        body = prog.body(f)
+        sums = [(ref_name(strip(kids(m_)[0], casts=True)), ref_name(strip(kids(m_)[1], casts=True))) for m_ in walk(body)
+                if m_.get("kind") == "CompoundAssignOperator" and m_.get("opcode") == "+=" and strip(kids(m_)[0], casts=True).get("kind") == "DeclRefExpr"]
+        count_vars = {ref_name(kids(strip(a))[0]) for c in walk(body) if c.get("kind") == "CallExpr" and "counting" in (callee_name(c) or "")
+                      for a in call_args(c) if strip(a).get("kind") == "UnaryOperator" and strip(a).get("opcode") == "&"}
+        for total in sorted({t_ for t_, v_ in sums if v_ in count_vars and t_}):
+            counts = {v_ for t_, v_ in sums if t_ == total and v_ in count_vars}
+            # conditions the function never changes, restricted to those that guard a counting call or a store to the total
+            written = set()
+            for m_ in walk(body):
+                if m_.get("kind") in ("BinaryOperator", "CompoundAssignOperator") and m_.get("opcode", "").endswith("=") and m_.get("opcode") not in ("==", "!=", "<=", ">="):
+                    written.add(EFF.lvalue_root(strip(kids(m_)[0]))[0])
+                if m_.get("kind") == "UnaryOperator" and m_.get("opcode") in ("++", "--", "&"):
+                    written.add(EFF.lvalue_root(strip(kids(m_)[0], casts=True))[0])
+            inv = []
+            for m_, parents_ in walk_with_parents(body):
+                if m_.get("kind") in ("IfStmt", "ConditionalOperator") and kids(m_):
+                    sub_txt = [expr_str(x) for x in walk(m_) if x.get("kind") in ("CallExpr", "BinaryOperator", "CompoundAssignOperator")]
+                    feeds_total = m_.get("kind") == "ConditionalOperator" and any(
+                        (p_.get("kind") == "VarDecl" and p_.get("name") == total) or
+                        (p_.get("kind") == "BinaryOperator" and p_.get("opcode") == "=" and ref_name(strip(kids(p_)[0], casts=True)) == total)
+                        for p_ in parents_[-3:])
+                    if not feeds_total and not any("counting" in t_ or (total + " ") in t_ or t_.startswith(total) for t_ in sub_txt):
+                        continue
+                    c_ = strip(kids(m_)[0])
+                    while c_.get("kind") == "UnaryOperator" and c_.get("opcode") == "!":
+                        c_ = strip(kids(c_)[0])
+                    if any(x.get("kind") == "CallExpr" for x in walk(c_)):
+                        continue
+                    roots = {ref_name(x) for x in walk(c_) if x.get("kind") == "DeclRefExpr" and (x.get("referencedDecl") or {}).get("kind") in ("VarDecl", "ParmVarDecl")}
+                    if roots and not (roots & written) and expr_str(c_) not in inv:
+                        inv.append(expr_str(c_))
+            inv = inv[:4]
+            worst = None
+            for vals in itertools.product((True, False), repeat=len(inv)):
+                d_ = _Init(total, counts, dict(zip(inv, vals)))
+                Flow(d_).function(prog, f, "raw")
+                if d_.nwrite and d_.nadd and (worst is None or len(d_.viol) > len(worst.viol)):
+                    worst = d_
+            if worst is not None:
+                chk.require(not worst.viol, "COUNTSUM", "COUNTSUM/init/%s" % total, loc_str(worst.viol[0]) if worst.viol else loc_str(f),
+                            "the total %s starts from zero on every path on which a count written by a counting call is added to it" % total,
+                            "on some path the addition meets the initial (non-zero) value of %s" % total)
     # ---- EXIT: library failures reach a non-zero exit status ----------------------------------------------------
     kinds = {"asm_assemble_str": "status", "asm_assemble_file": "status", "asm_assemble_string_counting_chunks": "status",
              "asm_assemble_file_counting_chunks": "status", "asm_create_bin_file": "status"}
